@@ -126,9 +126,11 @@ def relevant(prop, vid, variant="", faults=None, probes=None):
         # "tasks that keep re-registering ... do not prevent descriptors, timers and events from being
         # serviced": in the task plans, something that is not serviced is C06's to report
         return True
-    if prop == "C15" and ((variant and variant != "base") or faults):
-        # every guarantee of the other properties must survive every enumerated fault variant, and
-        # every base plan in which a fault of the plan itself (absent facility, EINTR) fired
+    if prop == "C15":
+        # "the observable behaviour of the loop is the same under every available poll method", under
+        # every enumerated fault and under the faults of the plan itself: every guarantee of the other
+        # properties has to hold in every run of this check, the fault-free base runs (whose poll method
+        # and exclusion style are drawn per plan) included
         return True
     return vid.startswith(prop + ".") or vid.startswith("ANY.") or vid.startswith("SIM.")
 
